@@ -167,3 +167,44 @@ Fixpoint hist_log (W H : N) (s : sys) (h : list (N * op)) : list text :=
 (** the right-hand side of the screen equation *)
 Definition ms_expected (W : N) (pre : list (list N)) (g : mghost) : list (list N) :=
   pre ++ wrap (N.to_nat W) (mg_log g) ++ mg_kept g ++ mg_live g.
+
+(* ------------------------------------------------------------------ C04_kept: the final phase *)
+(** the calls of the final phase of the kept clause: finishing calls and drops (every multi draw
+    they make is forced), in any order, on any bars *)
+Definition kept_op (o : op) : bool :=
+  match o with
+  | OFinish _ _ | OFinishUsingStyle _ | ODrop _ | OForceDraw _ | OSetTabWidth _ => true
+  | _ => false
+  end.
+
+Section Reaped.
+  Variable W H : N.
+
+  (** the stored lines of the members a call reaps (takes out of the ordering while their rows stay
+      on the screen as kept rows), at the moment they are reaped *)
+  Definition reap_act (now : N) (m : mstate) (a : maction) : list line :=
+    match a with
+    | ADraw force extra =>
+        if ms_attempt W m force extra now && negb (ms_has_text m extra) then zombie_lines_of m else []
+    | AMark idx =>
+        match ms_order m with
+        | first :: _ => if N.eqb idx first then member_lines (ms_members m) idx else []
+        | [] => []
+        end
+    | _ => []
+    end.
+
+  Fixpoint reap_run (now : N) (m : mstate) (c : N) (acts : list maction) : list line :=
+    match acts with
+    | [] => []
+    | a :: r => let '(m1, _, c1, _) := mp_exec1 W H nofaults now m c a in
+                reap_act now m a ++ reap_run now m1 c1 r
+    end.
+
+  Fixpoint reaped_hist (s : sys) (h : list (N * op)) : list line :=
+    match h with
+    | [] => []
+    | x :: r => reap_run (fst x) (s_mp s) (s_calls s) (op_actions W s (fst x) (snd x))
+                ++ reaped_hist (fst (fst (step W H nofaults s (fst x) (snd x)))) r
+    end.
+End Reaped.
